@@ -295,6 +295,13 @@ Und überlädt den "plus" Operator.
 
 Die Zahl z ist 1 plus 2.
 ''',
+    "import-inside-generic-body": '''Die generische Funktion g mit dem Parameter x vom Typ T, gibt nichts zurück, macht:
+	Binde "Duden/Ausgabe" ein.
+	Verlasse die Funktion.
+Und kann so benutzt werden:
+	"g <x>"
+g 1.
+''',
     "list-alias-n-mal": '''Wir nennen eine Zahlen Liste auch eine Zahlenreihe.
 Die Zahlenreihe l ist 3 Mal 0.
 ''',
